@@ -398,7 +398,7 @@ impl Sender {
             .map(|settlement| {
                 DeliveryFut::new(settlement, self.inner.link.session_stop_reason.clone())
             })?;
-        fut.await
+        self.inner.await_outcome(fut).await
     }
 
     /// Like [`send()`](#method.send) but takes a reference to the message
@@ -416,7 +416,7 @@ impl Sender {
             .map(|settlement| {
                 DeliveryFut::new(settlement, self.inner.link.session_stop_reason.clone())
             })?;
-        fut.await
+        self.inner.await_outcome(fut).await
     }
 
     cfg_not_wasm32! {
@@ -741,6 +741,47 @@ where
 }
 
 impl SenderInner<SenderLink<Target>> {
+    /// Waits for the outcome of a delivery while keeping an eye on the link itself: a
+    /// detach from the peer ends the wait and is answered, as it is for a send that
+    /// waits for credit. Without this a `send` whose link is detached before the outcome
+    /// arrives would wait forever, the `Sender` being borrowed by the very call.
+    async fn await_outcome(
+        &mut self,
+        fut: DeliveryFut<Result<Outcome, SendError>>,
+    ) -> Result<Outcome, SendError> {
+        tokio::pin!(fut);
+        loop {
+            tokio::select! {
+                outcome = &mut fut => return outcome,
+                frame = self.incoming.recv() => match frame {
+                    Some(LinkFrame::Detach(detach)) => {
+                        let closed = detach.closed;
+                        self.link
+                            .send_detach(&self.outgoing, closed, None)
+                            .await
+                            .map_err(LinkStateError::from)?;
+                        let result = self.link.on_incoming_detach(detach);
+                        return Err(match (result, closed) {
+                            (Ok(_), true) => LinkStateError::RemoteClosed,
+                            (Ok(_), false) => LinkStateError::RemoteDetached,
+                            (Err(err), _) => LinkStateError::from(err),
+                        }
+                        .into());
+                    }
+                    Some(_frame) => continue,
+                    None => {
+                        // The session (or its connection) stopped and dropped the relay
+                        return Err(match self.link.session_stop_reason.get() {
+                            Some(reason) => LinkStateError::SessionStopped(reason.clone()),
+                            None => LinkStateError::ExpectImmediateDetach,
+                        }
+                        .into());
+                    }
+                }
+            }
+        }
+    }
+
     /// Resumes a delivery with the given state and payload.
     ///
     /// The resume operation should not replace the unsettled map entry.
